@@ -123,12 +123,8 @@ class ColorOnly(Problem):
         return self._choices(n + 1)
 
     def can_end(self, ps):
-        # git ends its output after a complete file section or anywhere in log text, never
-        # inside a section (e.g. right after a hunk header)
-        n, cur, i = ps
-        if cur is None or cur == "pre":
-            return True
-        return i >= len(self.sec(cur[0], n, cur[1]))
+        # the statement speaks of every input line: the input may end anywhere, also right after a hunk header
+        return True
 
     def expected(self, line, role="ctx"):
         t = term.strip(line.decode("utf-8", "replace"))
@@ -205,6 +201,8 @@ DIMS = [
                       ("ul-ol", {"file-decoration-style": "117 ul ol"})]),
     Dim("hunk-deco", [("reserved", {}), ("ul", {"hunk-header-decoration-style": "118 ul"}),
                       ("none", {"hunk-header-decoration-style": "none"})]),
+    # --relative-paths is not one of the presets the mode implies: diffstat lines stay as they are
+    Dim("relative", [("off", {}), ("on,GIT_PREFIX", {"relative-paths": True, "_git_prefix": "sub/"})]),
     Dim("tabs", [("implied-0", {}), ("4", {"tabs": "4", "_tabs": 4})]),
     Dim("width", [("40", {}), ("9", {"width": "9"}), ("variable", {"width": "variable"})]),
     Dim("max-line-distance", [("0.6", {}), ("1", {"max-line-distance": "1"})]),
@@ -232,6 +230,8 @@ def run_task(task):
     args = build_args(o)
     drv = explore.get_driver()
     env = {"features": ocfg["env_features"]} if ocfg.get("env_features") else None
+    if ocfg.get("git_prefix"):
+        env = dict(env or {}, git_prefix=ocfg["git_prefix"], cwd="/work/repo")
     try:
         cid = drv.mkconfig(args, env)
     except explore.Rejected as e:
@@ -298,6 +298,10 @@ OTHER = [
     ("word-diff", ["git", "diff", "--word-diff"],
      b"diff --git a/f.txt b/f.txt\nindex 1111111..2222222 100644\n--- a/f.txt\n+++ b/f.txt\n@@ -1,3 +1,3 @@\nIntro\n"
      b"the [-old-]{+new+} text\n\nlast\n"),
+    # ... and the first line of a hunk looks like a header line (a test script: `diff -u expected actual`)
+    ("word-diff-header-lookalike", ["git", "diff", "--word-diff"],
+     b"diff --git a/t.sh b/t.sh\nindex 1111111..2222222 100644\n--- a/t.sh\n+++ b/t.sh\n@@ -1,2 +1,2 @@\ndiff -u expected actual\n"
+     b"echo [-old-]{+new+}\n@@ -7,2 +7,2 @@\ncommit the result\n[-a-]{+b+}\n@@ -17 +17 @@\nSubmodule x\n@@ -27 +27 @@\nold mode is kept\n"),
     ("word-diff-coloured", ["git", "log", "-p", "--color-words"],
      b"\x1b[1mdiff --git a/f.txt b/f.txt\x1b[m\n\x1b[1m--- a/f.txt\x1b[m\n\x1b[1m+++ b/f.txt\x1b[m\n\x1b[36m@@ -1,2 +1,2 @@\x1b[m\n"
      b"Intro\nthe \x1b[31mold\x1b[m\x1b[32mnew\x1b[m text\n"),
@@ -311,7 +315,6 @@ ASSUMPTIONS = [
     "producer: commit block + diffstat + file sections of 12 kinds x 5 hunk endings, in plain form "
     "and in an emulation of git's default colouring (C08 uses real git); plain `diff -u` files with and "
     "without `diff` lines between them",
-    "--relative-paths (an explicit request to rewrite diffstat paths) is outside the alphabet",
     "text law suspended exactly for: explicit --tabs, an explicit 'omit' style (that element "
     "only), the line-number gutter (gutter cells discounted); marker removal cannot be requested "
     "from the command line together with --color-only",
